@@ -47,6 +47,7 @@ RULE = (
     "num_envs, unequal resumed step counters, early-stop target, learning delay, seed); non-trivial = the real loop "
     "either returned after >= 2 generations with step accounting, budget and fitness oracles evaluated, or raised "
     "(crash witness); distinct = distinct case descriptions"
+    " Added: tournaments rank by a window of 1-3 evaluations (tourn_window), directed 5-6 generation cases with window 3 and protected elite"
 )
 ASSUMPTIONS = [
     "CPU only, accelerator=None, wb=False; swap_channels=False (channels-first counting environments)",
@@ -64,6 +65,7 @@ ASSUMPTIONS = [
     "n_experiences / per); other (algorithm, memory) pairs run as informational probes",
     "multi-agent environments are reset once before the loop is called, as the documentation does",
     "evo_steps >= num_envs (a generation with zero environment steps never terminates; treated as misuse)",
+    "learn progress (off-policy, on-policy, bandit loops): once the buffer could serve a batch before a step and the learning delay is over (on-policy: always), the acting agent reaches a learn() call within 2*max(learn_step, num_envs)+num_envs environment steps; the documented frequency leaves at most max(learn_step, num_envs) between two calls",
 ]
 REQUIRED_COUNTERS = [
     "runs_completed",
